@@ -93,6 +93,16 @@ def step (st : DState) (ws : List String) : DState × String :=
       ({ st with code := c', spec := s' },
         two (match r with | some id => s!"id {id.ms} {id.seq}" | none => "refused") (if sok then "ok" else "viol"))
     | _, _, _ => bad
+  | ["autoref", f] =>
+    -- the implementation refused `*`: legitimate only when no ID above the greatest ever added exists;
+    -- a refusal never depends on the clock having advanced, so the model runs with clock reading 0
+    match parseFields f with
+    | some f =>
+      let (c', r) := Code.addAuto st.q 0 f st.code
+      ({ st with code := c' },
+        two (match r with | some id => s!"id {id.ms} {id.seq}" | none => "refused")
+            (if (Spec.succId st.spec.maxEver).isNone then "ok" else "viol"))
+    | none => bad
   | ["range", sm, ss, em, es, c, rev] =>
     match sm.toNat?, ss.toNat?, em.toNat?, es.toNat?, parseCount c, bit rev with
     | some sm, some ss, some em, some es, some c, some rev =>
